@@ -120,6 +120,7 @@ func genC05(seed uint64, withSpec bool) *Scenario {
 			switch x := r.Intn(100); {
 			case specTask:
 				op = specOp(r)
+				op.FromFile = false
 				op.SharedMeta = false // a schema object shared between goroutines must not contain unexpanded $ref (outside C05)
 				if op.Kind == KSpecOne && coeRun {
 					op.Kind = KSpec
